@@ -4,7 +4,7 @@ lists of coq/model/TargetWords.v.  Run by hand after editing that file; ./check 
 `C15_corpus_in_step` when the two are out of step."""
 import os, re, sys
 ROOT = os.path.dirname(os.path.dirname(os.path.abspath(__file__)))
-POSITIONS = "function parameter local global struct member method enum enumvalue namespace cbuffer cbuffermember templateparam".split()
+POSITIONS = "function parameter local global struct member method methodcall enum enumvalue namespace cbuffer cbuffermember templateparam".split()
 
 
 def lists():
